@@ -110,3 +110,358 @@ fc_in = REG.add(Contract(
     modifies=["result"],
     call_names=("_fc_in",),
 ))
+
+
+# --------------------------------------------------------------------------------------
+# _touching_windows
+# --------------------------------------------------------------------------------------
+def _tw_left_ok(S, a, c, lo):
+    """lo = first thing index whose end lies after container c's start minus the window (or n)."""
+    n, w = a.thing_start.n, a.window
+    return S.And(0 <= lo, lo <= n,
+                 S.forall(0, lo, lambda k: a.thing_end.at(k) <= a.container_start.at(c) - w),
+                 S.Implies(lo < n, a.thing_end.at(lo) > a.container_start.at(c) - w))
+
+
+def _tw_right_ok(S, a, c, hi):
+    """hi = number of leading things that start before container c's end plus the window."""
+    n, w = a.thing_start.n, a.window
+    return S.And(0 <= hi, hi <= n,
+                 S.forall(0, hi, lambda k: a.thing_start.at(k) < a.container_end.at(c) + w),
+                 S.Implies(hi < n, a.thing_start.at(hi) >= a.container_end.at(c) + w))
+
+
+def _tw_requires(S, a):
+    n, m = a.thing_start.n, a.container_start.n
+    return [("equal lengths", S.And(a.thing_end.n == n, a.container_end.n == m)),
+            ("container starts sorted",
+             S.forall2(0, m, 0, m, lambda i, j: S.Implies(i <= j, a.container_start.at(i) <= a.container_start.at(j))))]
+
+
+def _tw_touches(S, a, k, c):
+    w = a.window
+    return S.And(a.thing_end.at(k) > a.container_start.at(c) - w, a.thing_start.at(k) < a.container_end.at(c) + w)
+
+
+def _tw_ensures(S, a, r):
+    n, m = a.thing_start.n, a.container_start.n
+    sorted_things = S.And(
+        S.forall2(0, n, 0, n, lambda i, j: S.Implies(i <= j, a.thing_start.at(i) <= a.thing_start.at(j))),
+        S.forall2(0, n, 0, n, lambda i, j: S.Implies(i <= j, a.thing_end.at(i) <= a.thing_end.at(j))))
+    return [
+        ("one (start, stop) pair per container", r.n == m),
+        ("result[c,0] is the first thing ending after the container start minus window",
+         S.forall(0, m, lambda c: _tw_left_ok(S, a, c, r.at2(c, 0)))),
+        ("result[c,1] counts the things starting before the container end plus window",
+         S.forall(0, m, lambda c: _tw_right_ok(S, a, c, r.at2(c, 1)))),
+        ("for things sorted by start and end: lo <= k < hi  <=>  thing k touches container c within window",
+         S.Implies(sorted_things, S.forall2(0, m, 0, n, lambda c, k: S.Iff(
+             S.And(r.at2(c, 0) <= k, k < r.at2(c, 1)), _tw_touches(S, a, k, c))))),
+        ("only mergesort is accepted for the end-time sort", _is_mergesort(S, a)),
+    ]
+
+
+def _is_mergesort(S, a):
+    return S.eq_str(a.endtime_sort_kind, "mergesort")
+
+
+def _tw_inv1(S, a):
+    k, n, m, w = a.k_, a.thing_start.n, a.container_start.n, a.window
+    return [
+        ("left_i in range", S.And(0 <= a.left_i, a.left_i <= n, a.n == n, a.right_i == 0)),
+        ("result has one row per container", a.result.n == m),
+        ("left_i starts at 0", S.Implies(k == 0, a.left_i == 0)),
+        ("things before left_i end before the previous container's window",
+         S.Implies(k > 0, S.forall(0, a.left_i, lambda j: a.thing_end.at(j) <= a.container_start.at(k - 1) - w))),
+        ("left column correct for containers done", S.forall(0, k, lambda c: _tw_left_ok(S, a, c, a.result.at2(c, 0)))),
+    ]
+
+
+def _tw_inv2(S, a):
+    n, w = a.thing_start.n, a.window
+    return [("left_i in range", S.And(0 <= a.left_i, a.left_i <= n)),
+            ("things before left_i end before this container's window",
+             S.forall(0, a.left_i, lambda j: a.thing_end.at(j) <= a.t0 - w))]
+
+
+def _tw_inv3(S, a):
+    k, n, m, w = a.k_, a.thing_start.n, a.container_start.n, a.window
+    perm = a.container_end_argsort
+    return [
+        ("right_i in range", S.And(0 <= a.right_i, a.right_i <= n, a.n == n)),
+        ("result has one row per container", a.result.n == m),
+        ("right_i starts at 0", S.Implies(k == 0, a.right_i == 0)),
+        ("things before right_i start before the previous (in end order) container's window",
+         S.Implies(k > 0, S.forall(0, a.right_i, lambda j: a.thing_start.at(j) < a.container_end.at(perm.at(k - 1)) + w))),
+        ("left column still correct", S.forall(0, m, lambda c: _tw_left_ok(S, a, c, a.result.at2(c, 0)))),
+        ("right column correct for containers done (those whose rank in end order is below k)",
+         S.forall(0, m, lambda c: S.Implies(S.inverse_perm(perm).at(c) < k, _tw_right_ok(S, a, c, a.result.at2(c, 1))))),
+    ]
+
+
+def _tw_inv4(S, a):
+    n, w = a.thing_start.n, a.window
+    return [("right_i in range", S.And(0 <= a.right_i, a.right_i <= n)),
+            ("things before right_i start before this container's window",
+             S.forall(0, a.right_i, lambda j: a.thing_start.at(j) < a.t1 + w))]
+
+
+touching_windows_core = REG.add(Contract(
+    F, "_touching_windows",
+    params=dict(thing_start=ArrT("int"), thing_end=ArrT("int"), container_start=ArrT("int"),
+                container_end=ArrT("int"), window="int", endtime_sort_kind="V"),
+    requires=_tw_requires,
+    ensures=_tw_ensures,
+    raises={"SortingError": lambda S, a: S.Not(_is_mergesort(S, a))},
+    loops={1: Loop(_tw_inv1), 2: Loop(_tw_inv2, variant=lambda S, a: a.thing_start.n - a.left_i),
+           3: Loop(_tw_inv3), 4: Loop(_tw_inv4, variant=lambda S, a: a.thing_start.n - a.right_i)},
+    call_names=("_touching_windows",),
+    returns=ArrT("int", dims=2),
+))
+
+
+# --------------------------------------------------------------------------------------
+# diff: gap between each row's start and the running maximum of the earlier ends
+# --------------------------------------------------------------------------------------
+from contracts.chunk import INTERVALS, sorted_by_time, positive_duration  # noqa: E402
+from contracts import lemmas as L  # noqa: E402
+
+
+def _diff_ok(S, d, r, upto):
+    return S.forall(0, upto, lambda i: S.And(
+        S.forall(0, i + 1, lambda j: r.at(i) <= d.f("time", i + 1) - d.f("endtime", j)),
+        S.exists(0, i + 1, lambda j: r.at(i) == d.f("time", i + 1) - d.f("endtime", j))))
+
+
+def _diff_inv(S, a):
+    d, k = a.data, a.k_
+    m = S.max(k, 1)
+    return [("shape", S.And(d.n >= 1, a.results.n == d.n - 1)),
+            ("max_endtime is the maximum end of rows 0..max(k,1)-1",
+             S.And(S.forall(0, m, lambda j: d.f("endtime", j) <= a.max_endtime),
+                   S.exists(0, m, lambda j: d.f("endtime", j) == a.max_endtime))),
+            ("results correct below k", _diff_ok(S, d, a.results, k))]
+
+
+diff = REG.add(Contract(
+    F, "diff",
+    params=dict(data=INTERVALS),
+    ensures=lambda S, a, r: [
+        ("one gap per consecutive pair", r.n == S.max(a.data.n - 1, 0)),
+        ("result[i] = time[i+1] - max(endtime[0..i])", _diff_ok(S, a.data, r, r.n))],
+    raises={},
+    loops={1: Loop(_diff_inv)},
+    call_names=("diff", "strax.diff"),
+    returns=ArrT("int"),
+))
+
+
+# --------------------------------------------------------------------------------------
+# _find_break_i / from_break
+# --------------------------------------------------------------------------------------
+def _fb_no_break_at(S, d, i, sb, nb):
+    """row i does NOT start a safe break: time[i] - sb lies before max(not_before, ends of rows < i)."""
+    return S.Or(d.f("time", i) - sb < nb, S.exists(0, i, lambda j: d.f("time", i) - sb < d.f("endtime", j)))
+
+
+def _fb_break_at(S, d, i, sb, nb):
+    return S.And(d.f("time", i) - sb >= nb, S.forall(0, i, lambda j: d.f("time", i) - sb >= d.f("endtime", j)))
+
+
+def _fbi_inv(S, a):
+    d, k, Lm = a.data, a.k_, a.latest_end_seen
+    m = S.max(k, 1)
+    return [("at least two rows", d.n >= 2),
+            ("latest_end_seen = max(not_before, ends of rows 0..max(k,1)-1)",
+             S.And(Lm >= a.not_before, S.forall(0, m, lambda j: Lm >= d.f("endtime", j)),
+                   S.Or(Lm == a.not_before, S.exists(0, m, lambda j: Lm == d.f("endtime", j))))),
+            ("no earlier row starts a safe break",
+             S.forall(1, k, lambda i: _fb_no_break_at(S, d, i, a.safe_break, a.not_before)))]
+
+
+find_break_i = REG.add(Contract(
+    F, "_find_break_i",
+    params=dict(data=INTERVALS, safe_break="int", not_before="int"),
+    ensures=lambda S, a, r: [
+        ("index of a later row", S.And(1 <= r, r < a.data.n)),
+        ("row r starts at least safe_break after max(not_before, all earlier ends)",
+         _fb_break_at(S, a.data, r, a.safe_break, a.not_before)),
+        ("it is the FIRST such row",
+         S.forall(1, r, lambda i: _fb_no_break_at(S, a.data, i, a.safe_break, a.not_before)))],
+    raises={"AssertionError": lambda S, a: a.data.n < 2,
+            "NoBreakFound": lambda S, a: S.And(a.data.n >= 2, S.forall(
+                1, a.data.n, lambda i: _fb_no_break_at(S, a.data, i, a.safe_break, a.not_before)))},
+    loops={1: Loop(_fbi_inv)},
+    call_names=("_find_break_i",),
+    make_result=lambda eng, st, bound: (eng.fresh("break_i"), st),
+))
+
+
+def _from_break_ens(S, a, r):
+    part, bt = r
+    d = a.x
+    # the break index is determined by the returned slice
+    bi = S.If(a.left, part.n, d.n - part.n)
+    return [
+        ("options", S.And(S.Not(a.tolerant), d.n >= 2)),
+        ("break index in range", S.And(1 <= bi, bi < d.n)),
+        ("returned rows are the left / right side of the break",
+         S.If(a.left, S.is_slice(part, d, 0, bi), S.is_slice(part, d, bi, d.n - bi))),
+        ("break time is the start of the first row right of the break", bt == d.f("time", bi)),
+        ("the break is safe", _fb_break_at(S, d, bi, a.safe_break, a.not_before)),
+        ("and it is the first safe break",
+         S.forall(1, bi, lambda i: _fb_no_break_at(S, d, i, a.safe_break, a.not_before)))]
+
+
+from_break = REG.add(Contract(
+    F, "from_break",
+    params=dict(x=INTERVALS, safe_break="int", not_before="int", left="bool", tolerant="bool"),
+    ensures=_from_break_ens,
+    raises={"NotImplementedError": lambda S, a: S.Or(a.tolerant, a.x.n == 0),
+            "NoBreakFound": lambda S, a: S.And(S.Not(a.tolerant), a.x.n >= 1, S.forall(
+                1, a.x.n, lambda i: _fb_no_break_at(S, a.x, i, a.safe_break, a.not_before)))},
+    call_names=("from_break", "strax.from_break"),
+))
+
+
+# --------------------------------------------------------------------------------------
+# sanity checks (vector expressions become quantified formulas)
+# --------------------------------------------------------------------------------------
+check_sorted = REG.add(Contract(
+    F, "_check_time_is_sorted",
+    params=dict(time=ArrT("int")),
+    ensures=lambda S, a, r: [("returns only for sorted input", L.adjacent_sorted(S, a.time.at, a.time.n))],
+    raises={"AssertionError": lambda S, a: S.Not(L.adjacent_sorted(S, a.time.at, a.time.n))},
+    call_names=("_check_time_is_sorted",),
+))
+
+check_nonneg = REG.add(Contract(
+    F, "_check_objects_non_negative_length",
+    params=dict(objects=INTERVALS),
+    ensures=lambda S, a, r: [("returns only for non-negative lengths",
+                              S.forall(0, a.objects.n, lambda i: a.objects.f("endtime", i) >= a.objects.f("time", i)))],
+    raises={"AssertionError": lambda S, a: S.exists(
+        0, a.objects.n, lambda i: a.objects.f("endtime", i) < a.objects.f("time", i))},
+    call_names=("_check_objects_non_negative_length",),
+))
+
+check_no_overlap = REG.add(Contract(
+    F, "_check_objects_are_not_overlapping",
+    params=dict(objects=INTERVALS),
+    ensures=lambda S, a, r: [("returns only for adjacent-disjoint objects", L.adjacent_disjoint(
+        S, lambda i: a.objects.f("time", i), lambda i: a.objects.f("endtime", i), a.objects.n))],
+    raises={"AssertionError": lambda S, a: S.Not(L.adjacent_disjoint(
+        S, lambda i: a.objects.f("time", i), lambda i: a.objects.f("endtime", i), a.objects.n))},
+    call_names=("_check_objects_are_not_overlapping",),
+))
+
+
+def _sane(S, x):
+    return S.And(L.adjacent_sorted(S, lambda i: x.f("time", i), x.n),
+                 S.forall(0, x.n, lambda i: x.f("endtime", i) >= x.f("time", i)))
+
+
+fc_sanity = REG.add(Contract(
+    F, "_fully_contained_in_sanity",
+    params=dict(things=INTERVALS, containers=INTERVALS),
+    ensures=lambda S, a, r: [("returns only for sorted inputs of non-negative length",
+                              S.And(_sane(S, a.things), _sane(S, a.containers)))],
+    raises={"ValueError": lambda S, a: S.Not(S.And(_sane(S, a.things), _sane(S, a.containers)))},
+    call_names=("_fully_contained_in_sanity",),
+))
+
+
+# --------------------------------------------------------------------------------------
+# _fully_contained_in / fully_contained_in
+# --------------------------------------------------------------------------------------
+def _fci_ok(S, things, containers, res):
+    nb = containers.n
+    cont = lambda c, i: S.And(containers.f("time", c) <= things.f("time", i),
+                              things.f("endtime", i) <= containers.f("endtime", c))
+    return S.And(
+        res.n == things.n,
+        S.forall(0, things.n, lambda i: S.Or(res.at(i) == -1, S.And(0 <= res.at(i), res.at(i) < nb, cont(res.at(i), i)))),
+        S.forall2(0, things.n, 0, nb, lambda i, c: S.Implies(cont(c, i), res.at(i) == c)))
+
+
+def _fci_requires(S, a):
+    t, c = a.things, a.containers
+    return [("things sorted by time", sorted_by_time(S, t)),
+            ("things have positive duration", positive_duration(S, t)),
+            ("containers have non-negative length", S.forall(0, c.n, lambda j: c.f("endtime", j) >= c.f("time", j))),
+            ("containers pairwise disjoint and sorted", L.pairwise_disjoint(
+                S, lambda i: c.f("time", i), lambda i: c.f("endtime", i), c.n))]
+
+
+fully_contained_core = REG.add(Contract(
+    F, "_fully_contained_in",
+    params=dict(things=INTERVALS, containers=INTERVALS),
+    requires=_fci_requires,
+    ensures=lambda S, a, r: [("result[i] = index of THE container holding thing i, -1 iff there is none",
+                              _fci_ok(S, a.things, a.containers, r))],
+    raises={},
+    call_names=("_fully_contained_in",),
+    returns=ArrT("int"),
+))
+
+
+def _fc_doc_pre(S, a):
+    """Documented preconditions that the wrapper does not (or only partly) check itself."""
+    t, c = a.things, a.containers
+    return [("things have positive duration (law 4 of chunking)", positive_duration(S, t)),
+            ("containers do not overlap", L.adjacent_disjoint(
+                S, lambda i: c.f("time", i), lambda i: c.f("endtime", i), c.n))]
+
+
+fully_contained_in = REG.add(Contract(
+    F, "fully_contained_in",
+    params=dict(things=INTERVALS, containers=INTERVALS),
+    requires=_fc_doc_pre,
+    ensures=lambda S, a, r: [
+        ("accepted inputs are sorted", S.And(_sane(S, a.things), _sane(S, a.containers))),
+        ("result[i] = index of THE container holding thing i, -1 iff there is none",
+         _fci_ok(S, a.things, a.containers, r))],
+    raises={"ValueError": lambda S, a: S.Not(S.And(_sane(S, a.things), _sane(S, a.containers)))},
+    lemma_facts=lambda S, a: [
+        L.sorted_instance(S, lambda i: a.things.f("time", i), a.things.n),
+        L.disjoint_instance(S, lambda i: a.containers.f("time", i), lambda i: a.containers.f("endtime", i),
+                            a.containers.n)],
+    call_names=("fully_contained_in", "strax.fully_contained_in"),
+    returns=ArrT("int"),
+))
+
+
+# --------------------------------------------------------------------------------------
+# touching_windows (wrapper)
+# --------------------------------------------------------------------------------------
+def _twr_touches(S, a, k, c):
+    w, t, cn = a.window, a.things, a.containers
+    return S.And(t.f("endtime", k) > cn.f("time", c) - w, t.f("time", k) < cn.f("endtime", c) + w)
+
+
+def _twr_ens(S, a, r):
+    t, c = a.things, a.containers
+    ends_sorted = L.adjacent_sorted(S, lambda i: t.f("endtime", i), t.n)
+    return [
+        ("accepted inputs are sorted", S.And(_sane(S, t), _sane(S, c))),
+        ("one (start, stop) pair per container", r.n == c.n),
+        ("empty things or containers give all-zero windows",
+         S.Implies(S.Or(t.n == 0, c.n == 0), S.forall(0, c.n, lambda i: S.And(r.at2(i, 0) == 0, r.at2(i, 1) == 0)))),
+        ("for things also sorted by end: lo <= k < hi  <=>  thing k touches container c within window",
+         S.Implies(ends_sorted, S.forall2(0, c.n, 0, t.n, lambda ci, k: S.Iff(
+             S.And(r.at2(ci, 0) <= k, k < r.at2(ci, 1)), _twr_touches(S, a, k, ci))))),
+    ]
+
+
+touching_windows = REG.add(Contract(
+    F, "touching_windows",
+    params=dict(things=INTERVALS, containers=INTERVALS, window="int"),
+    ensures=_twr_ens,
+    raises={"ValueError": lambda S, a: S.Not(S.And(_sane(S, a.things), _sane(S, a.containers)))},
+    lemma_facts=lambda S, a: [
+        L.sorted_instance(S, lambda i: a.things.f("time", i), a.things.n),
+        L.sorted_instance(S, lambda i: a.things.f("endtime", i), a.things.n),
+        L.sorted_instance(S, lambda i: a.containers.f("time", i), a.containers.n)],
+    call_names=("touching_windows", "strax.touching_windows"),
+    returns=ArrT("int", dims=2),
+))
